@@ -254,3 +254,58 @@ Definition eval_if {B} (n : ifnode B) : B :=
 Definition use_test (c : bool * bool) : bool := if fst c then negb (snd c) else snd c.
 Definition parse_ifuses {B} (first : bool * bool * B) (rest : list (bool * bool * B)) (else_ : B) : ifnode B :=
   IfN (use_test (fst first)) (snd first) (map (fun c => (use_test (fst c), snd c)) rest) else_.
+
+(* ------------------------------------------------------------------------------------------ *)
+(* (3b) use queries whose answers change between and DURING renders in one long-lived environment.                   *)
+(* A test is a computation over a state S (the world the query reads): `ask s q` = (answer now, next world).         *)
+(* UseQuery keeps no state of its own (Generated/Gen_JinjaPins.v ext_state_stores = []), so the If node it builds    *)
+(* asks the query each time a clause test is evaluated, in clause order, stopping at the first true test.            *)
+(* ------------------------------------------------------------------------------------------ *)
+Inductive ifnodeT (S B : Type) := IfT (test : S -> bool * S) (body : B) (elifs : list ((S -> bool * S) * B)) (else_ : B).
+Arguments IfT {S B}.
+
+Fixpoint eval_elifsT {S B} (elifs : list ((S -> bool * S) * B)) (else_ : B) (s : S) : B * S :=
+  match elifs with
+  | [] => (else_, s)
+  | (t, b) :: r => let (a, s') := t s in if a then (b, s') else eval_elifsT r else_ s'
+  end.
+Definition eval_ifT {S B} (n : ifnodeT S B) (s : S) : B * S :=
+  match n with IfT t b el e => let (a, s') := t s in if a then (b, s') else eval_elifsT el e s' end.
+
+(* clause = (negated?, query id, body);  _use_query(q) / _use_nquery(q) = not _use_query_common(q) *)
+Definition use_testT {S} (ask : S -> N -> bool * S) (neg : bool) (q : N) (s : S) : bool * S :=
+  let (a, s') := ask s q in (if neg then negb a else a, s').
+Definition parse_ifusesT {S B} (ask : S -> N -> bool * S) (first : bool * N * B) (rest : list (bool * N * B)) (else_ : B) : ifnodeT S B :=
+  IfT (use_testT ask (fst (fst first)) (snd (fst first))) (snd first)
+      (map (fun c => (use_testT ask (fst (fst c)) (snd (fst c)), snd c)) rest) else_.
+
+(* the ordinary conditional chain  {% if [not] q0() %}b0{% elif [not] q1() %}b1 ... {% else %}e{% endif %} *)
+Fixpoint run_chain {S B} (ask : S -> N -> bool * S) (cl : list (bool * N * B)) (else_ : B) (s : S) : B * S :=
+  match cl with
+  | [] => (else_, s)
+  | c :: r => let (a, s') := ask s (snd (fst c)) in
+              if xorb (fst (fst c)) a then (snd c, s') else run_chain ask r else_ s'
+  end.
+
+(* a sequence of renders in ONE environment threads only the world, never anything remembered by the extension *)
+Fixpoint render_seq {S B} (render : list (S -> B * S)) (s : S) : list B * S :=
+  match render with
+  | [] => ([], s)
+  | r :: rs => let (b, s') := r s in let (bs, s'') := render_seq rs s' in (b :: bs, s'')
+  end.
+
+(* scripted world for the correspondence run: per query id the list of future answers (the last one repeats) *)
+Fixpoint ask_script (s : list (N * list bool)) (q : N) : bool * list (N * list bool) :=
+  match s with
+  | [] => (false, [])
+  | (k, l) :: r =>
+      if k =? q then
+        match l with
+        | [] => (false, s)
+        | [a] => (a, s)
+        | a :: l' => (a, (k, l') :: r)
+        end
+      else let (a, r') := ask_script r q in (a, (k, l) :: r')
+  end.
+Definition render_ifuses_script (steps : list ((bool * N * N) * list (bool * N * N) * N)) (s : list (N * list bool)) : list N :=
+  fst (render_seq (map (fun st => eval_ifT (parse_ifusesT ask_script (fst (fst st)) (snd (fst st)) (snd st))) steps) s).
